@@ -326,38 +326,6 @@ Record MBI (f : nat) : Prop := mkMBI {
   mb_hcall : forall cid call args w W ex, IINV (RI W ex) w -> IINV (RI W ex) (hcall f cid call args w)
 }.
 
-Lemma is_prefix_refl : forall l, is_prefix l l = true.
-Proof. intros. rewrite <- (app_nil_r l) at 2. apply is_prefix_app. Qed.
-
-Lemma read_take : forall (n : Z) (a b : list Z),
-  ztake n a ++ ztake (n - zlen (ztake n a)) b = ztake n (a ++ b).
-Proof.
-  intros. rewrite ztake_app. f_equal. rewrite zlen_ztake. pose proof (zlen_nonneg _ a).
-  destruct (Z_le_gt_dec n 0) as [H0|H0]; [rewrite !ztake_neg by lia; reflexivity|].
-  destruct (Z_le_gt_dec n (zlen a)) as [H1|H1].
-  - rewrite !ztake_neg by lia. reflexivity.
-  - f_equal. lia.
-Qed.
-Lemma read_drop : forall (n : Z) (a b : list Z),
-  zdrop n a ++ zdrop (n - zlen (ztake n a)) b = zdrop n (a ++ b).
-Proof.
-  intros. rewrite zdrop_app. f_equal. rewrite zlen_ztake. pose proof (zlen_nonneg _ a).
-  destruct (Z_le_gt_dec n 0) as [H0|H0]; [rewrite !zdrop_neg by lia; reflexivity|].
-  destruct (Z_le_gt_dec n (zlen a)) as [H1|H1].
-  - rewrite !zdrop_neg by lia. reflexivity.
-  - f_equal. lia.
-Qed.
-Lemma read_take_in : forall (n : Z) (a b : list Z), zlen (ztake n a) = n -> ztake n a = ztake n (a ++ b).
-Proof.
-  intros n a b E. rewrite ztake_app. rewrite zlen_ztake in E. pose proof (zlen_nonneg _ a).
-  rewrite (ztake_neg _ (n - zlen a)) by lia. rewrite app_nil_r. reflexivity.
-Qed.
-Lemma read_drop_in : forall (n : Z) (a b : list Z), zlen (ztake n a) = n -> zdrop n a ++ b = zdrop n (a ++ b).
-Proof.
-  intros n a b E. rewrite zdrop_app. rewrite zlen_ztake in E. pose proof (zlen_nonneg _ a).
-  rewrite (zdrop_neg _ (n - zlen a)) by lia. reflexivity.
-Qed.
-
 Lemma I_hr_consume_nil : forall W ex call cid vals w,
   consuming call = true ->
   IINV (RI W ex) w ->
